@@ -279,9 +279,10 @@ def run_operator_wiring(repo, task):
     t0 = time.time()
     items, failures = [], []
 
-    def ob(name, ok, note, fn):
-        items.append(dict(name=name, fn=fn, kind='G8', verdict='proved' if ok else 'refuted', backend='ast', ms=0.0, note=note))
-        if not ok:
+    def ob(name, ok, note, fn, undecided=False):
+        v = 'proved' if ok else ('undecided' if undecided else 'refuted')
+        items.append(dict(name=name, fn=fn, kind='G8', verdict=v, backend='ast', ms=0.0, note=note))
+        if v == 'refuted':
             failures.append(dict(key=f'G:{name}', what=f'{name}: {note}', nofail=True, replay=dict(site=name, note=note)))
     tree = ast.parse(open(os.path.join(repo, 'static_frame/core/container.py')).read())
     cls = next((n for n in tree.body if isinstance(n, ast.ClassDef) and n.name == 'ContainerOperand'), None)
@@ -317,7 +318,7 @@ def run_operator_wiring(repo, task):
             ok = (len(a) == 2 and isinstance(b, ast.Call) and ast.unparse(b.func) == f'operator_mod.__{x}__' and len(b.args) == 2
                   and all(isinstance(v, ast.Name) for v in b.args) and [v.id for v in b.args] == [a[1], a[0]])
             note = ast.unparse(lam)
-        ob(f'{q}:swapped-operands', ok, note, q)
+        ob(f'{q}:swapped-operands', ok, note, q, undecided=lam is None)      # written in another form than a two-parameter lambda: not recognised, not an alarm
         calls = [c for c in ast.walk(fn) if isinstance(c, ast.Call) and isinstance(c.func, ast.Attribute) and c.func.attr == '_ufunc_binary_operator']
         kws = {k.arg: ast.unparse(k.value) for k in calls[0].keywords} if len(calls) == 1 else {}
         ob(f'{q}:passes-lambda-and-other', kws.get('operator') == 'operator' and kws.get('other') == 'other', f'{kws}', q)
@@ -407,11 +408,18 @@ def run_store_config_sites(repo, task):
     t0 = time.time()
     items, failures = [], []
 
-    def ob(name, ok, note, fn):
-        items.append(dict(name=name, fn=fn, kind='G10', verdict='proved' if ok else 'refuted', backend='ast', ms=0.0, note=note))
-        if not ok:
+    def ob(name, ok, note, fn, undecided=False):
+        v = 'proved' if ok else ('undecided' if undecided else 'refuted')
+        items.append(dict(name=name, fn=fn, kind='G10', verdict=v, backend='ast', ms=0.0, note=note))
+        if v == 'refuted':
             failures.append(dict(key=f'G:{name}', what=f'{name}: {note}', nofail=True, replay=dict(site=name, note=note)))
-    ALLOWED_DEFAULT = {'label_encode', 'label_decode', 'read_max_workers', 'read_chunksize', 'write_max_workers', 'write_chunksize'}
+    ALLOWED_DEFAULT = {'label_encode', 'label_decode', 'label_encoder', 'label_decoder', 'read_max_workers', 'read_chunksize', 'write_max_workers', 'write_chunksize'}
+    # the options that describe ONE Frame (taken from the parameters of StoreConfig.__init__ at run time) and the conversion that carries them
+    per_label = {'to_store_config_he'}
+    st_tree = ast.parse(open(os.path.join(repo, 'static_frame/core/store.py')).read())
+    for cls_ in [c for c in ast.walk(st_tree) if isinstance(c, ast.ClassDef) and c.name == 'StoreConfig']:
+        for f_ in [f for f in cls_.body if isinstance(f, ast.FunctionDef) and f.name == '__init__']:
+            per_label |= {a.arg for a in f_.args.args + f_.args.kwonlyargs if a.arg != 'self'} - ALLOWED_DEFAULT
     core = os.path.join(repo, 'static_frame/core')
     n = 0
     for mod in sorted(f for f in os.listdir(core) if f.startswith('store_') and f.endswith('.py') and f not in ('store_filter.py', 'store_client_mixin.py')):
@@ -431,12 +439,23 @@ def run_store_config_sites(repo, task):
                     if isinstance(node, ast.Attribute) and isinstance(node.value, ast.Attribute) and node.value.attr == 'default' \
                             and isinstance(node.value.value, ast.Name) and node.value.value.id == 'config_map':
                         n += 1
-                        ob(f'{q}:default-use#{kd}:{node.attr}', node.attr in ALLOWED_DEFAULT, f'config_map.default.{node.attr} (label independent options: {sorted(ALLOWED_DEFAULT)})', q)
+                        # a per-Frame option read from the default config: refuted; an attribute this generator does not know: undecided (not an alarm)
+                        ob(f'{q}:default-use#{kd}:{node.attr}', node.attr in ALLOWED_DEFAULT, f'config_map.default.{node.attr} (label independent options: {sorted(ALLOWED_DEFAULT)})', q,
+                           undecided=node.attr not in per_label)
                         kd += 1
                     if isinstance(node, ast.Subscript) and isinstance(node.value, ast.Name) and node.value.id == 'config_map':
                         n += 1
                         key = node.slice
-                        ok = isinstance(key, ast.Name) and key.id in label_vars
+                        # the key is the label variable of an enclosing loop (whatever the iterable is called)
+                        encl = set()
+                        for loop in [l for l in ast.walk(fn) if isinstance(l, ast.For)]:
+                            if any(x is node for x in ast.walk(loop)):
+                                t_ = loop.target
+                                first_ = t_.elts[0] if isinstance(t_, ast.Tuple) and t_.elts else t_
+                                if isinstance(first_, ast.Name):
+                                    encl.add(first_.id)
+                        label_vars |= encl
+                        ok = isinstance(key, ast.Name) and key.id in encl
                         ob(f'{q}:per-label-config#{ks}', ok, f'config_map[{ast.unparse(key)}] with label loop variables {sorted(label_vars)}', q)
                         ks += 1
                 # an encoded label must not be used to look the config up: rebinding the label variable before the lookup is checked by order
